@@ -401,7 +401,8 @@ def run(prop, tier, replay, Ctx):
                 viol = ("structure:no_repr_c", "generated struct %s in %s has no C representation (repr: %s)" % (sname, name, st["repr"]))
             elif sname.endswith("Vtbl"):
                 for fname, fty in st["fields"]:
-                    if fname.startswith("_lt_") or fname.startswith("_ty_") or fname.startswith("_phantom"):
+                    # zero-sized markers (whatever they are called, wherever they sit): not entries
+                    if fname.startswith("_lt_") or fname.startswith("_ty_") or fname.startswith("_phantom") or re.match(r"^(?:::\s*)?(?:(?:core|std)\s*::\s*marker\s*::\s*)?PhantomData\s*<", fty.strip()):
                         continue
                     t = fty.replace("unsafe ", "")
                     t = re.sub(r"^for\s*<[^>]*>\s*", "", t)
